@@ -83,7 +83,12 @@ class Scatter(AbsInt):
             if base[0] == "join":
                 return self.join([self.subscript(b, node, ctx) for b in base[1]])
             if base[0] == "shapevec":
-                return ("dim", base[1], _axis(ci)) if ci is not None else self.unknown("shape[?]")
+                if ci is None:
+                    return self.unknown("shape[?]")
+                path, ax = base[1], _axis(ci)
+                while path.endswith(".T") or path.endswith(".H"):  # the shape of a transpose is the shape swapped
+                    path, ax = path[:-2], (1 - ax if ax in (0, 1) else ax)
+                return ("dim", path, ax)
             if base[0] == "obj" and ci is not None and base[1] in self.tuple_paths:
                 return ("item", base[1], ci)
             if base[0] == "arange":
@@ -121,7 +126,13 @@ class Scatter(AbsInt):
         if name == "zeros":
             return ("zeros", kwargs.get("shape", args[0] if args else self.unknown("shape")))
         if name == "update_array" and len(args) >= 2:
-            return ("scatter", args[0], args[1], tuple(args[2:]))
+            idx_ = []
+            for a_node, a in zip(node.args[2:], args[2:]):
+                if isinstance(a_node, ast.Starred) and isinstance(a, tuple) and a and a[0] == "tuple":
+                    idx_ += list(a[1])  # update_array(buf, val, *index)
+                else:
+                    idx_.append(a)
+            return ("scatter", args[0], args[1], tuple(idx_))
         if name == "arange" and args:
             return ("arange", args[0])
         if name in ("copy", "array", "cast") and args:
